@@ -50,6 +50,8 @@ ASSUME_PATTERNS = [
     (re.compile(r'\baxiom\s+fn\b'), 'axiom'),
     (re.compile(r'verifier::external\b'), 'external'),
     (re.compile(r'\buninterp\b'), 'uninterp'),
+    (re.compile(r'\bglobal\s+size_of\b'), 'target-assumption'),
+    (re.compile(r'exec_allows_no_decreases_clause'), 'no-termination-proof'),
 ]
 
 
